@@ -277,29 +277,30 @@ pub(crate) mod verif_event {
                 }
                 i += 1;
             }
-            if (p & P01) != 0 {
+            if (p & (P01 | P14)) != 0 {
                 let g = ev.inner.lock();
                 let nodes: [*const Node; 3] = [&f0.wait_node, &f1.wait_node, &f2.wait_node];
                 let len = g.waiters.verif_len_checked(3);
-                assert!(len.is_some(), "C01 event step: wait queue links are inconsistent");
+                if (p & P01) != 0 { assert!(len.is_some(), "C01 event step: wait queue links are inconsistent"); }
                 let mut cnt = 0usize;
                 i = 0;
                 while i < 3 {
                     let should = alive[i] && t2[i] == 1;
                     let pos = g.waiters.verif_pos_from_tail(nodes[i], 3);
-                    assert!(pos.is_some() == should, "C01 event step: wait queue membership differs from {alive and waiting}");
+                    if (p & P01) != 0 { assert!(pos.is_some() == should, "C01 event step: wait queue membership differs from {alive and waiting}"); }
                     let nd = unsafe { &*nodes[i] };
-                    if !should { assert!(nd.verif_unlinked(), "C01 event step: a future outside the queue still carries links"); }
+                    if !should { if (p & P01) != 0 { assert!(nd.verif_unlinked(), "C01 event step: a future outside the queue still carries links"); } }
                     if should {
                         cnt += 1;
                         let lwc: &WakeCell = if i == polled { if polled_w { cells_a[i] } else { cells_b[i] } }
                                              else if lw[i] { cells_a[i] } else { cells_b[i] };
                         let ok = match &nd.task { Some(w) => w.will_wake(&ManuallyDrop::new(mk_waker(lwc))), None => false };
-                        assert!(ok, "C01 event step: waiting future does not store the waker of its latest poll");
+                        if (p & P01) != 0 { assert!(ok, "C01 event step: waiting future does not store the waker of its latest poll"); }
+                        if (p & P14) != 0 { assert!(ok, "C14 event step: waiting future does not store the waker of its latest poll (it would be woken through a stale waker)"); }
                     }
                     i += 1;
                 }
-                assert!(len == Some(cnt), "C01 event step: wait queue holds a node that is not a live waiting future");
+                if (p & P01) != 0 { assert!(len == Some(cnt), "C01 event step: wait queue holds a node that is not a live waiting future"); }
             }
             if (p & P17) != 0 {
                 if alive[0] { assert!(f0.is_terminated() == (t2[0] == 3), "C17 event step: is_terminated() differs from 'completed'"); }
